@@ -48,6 +48,7 @@ type FuncContract struct {
 	Functype  bool // contract for a function type / interface method
 	InputPath bool
 	IntMode   bool
+	Swept     bool // created by a sweep directive (safety obligations only)
 }
 
 type SpecFunc struct {
@@ -80,7 +81,19 @@ type Lemma struct {
 	IntMode bool
 }
 
+type Sweep struct {
+	PkgPath string
+	Glob    string
+	Props   []string
+	IntMode bool
+	File    string
+	Line    int
+	Except  []string
+	Requires []Clause
+}
+
 type Contracts struct {
+	Sweeps    []*Sweep
 	Funcs     map[string]*FuncContract // key: pkgpath + "::" + name, or "::" + fullname
 	SpecFuncs map[string]*SpecFunc
 	Ghosts    map[string]*GhostHeap
@@ -95,7 +108,7 @@ func newContracts() *Contracts {
 
 var clauseKW = map[string]bool{"func": true, "spec": true, "lemma": true, "ghostheap": true, "props": true, "trusted": true, "inline": true,
 	"pure": true, "may_panic": true, "requires": true, "ensures": true, "assume": true, "modifies": true, "loop": true, "functype": true,
-	"iface": true, "input_path": true, "no_safety": true, "package": true, "mode": true}
+	"iface": true, "input_path": true, "no_safety": true, "package": true, "mode": true, "sweep": true}
 
 var labelRe = regexp.MustCompile(`^\[([A-Za-z0-9_.$#-]+)\]\s*`)
 
@@ -175,6 +188,39 @@ func (cs *Contracts) loadContractFile(path string, pkgPath string) error {
 				return fail("duplicate contract for %s", name)
 			}
 			cs.Funcs[key] = cur
+		case "sweep":
+			// sweep <glob> props A B [mode int] [except f g]: safety-only contracts for every matching function
+			fs := strings.Fields(rest)
+			if len(fs) < 1 {
+				return fail("sweep needs a pattern")
+			}
+			sw := &Sweep{PkgPath: pkgPath, Glob: fs[0], File: path, Line: rc.line}
+			if i := strings.Index(rest, " requires "); i >= 0 {
+				c, err := mkClause("requires", strings.TrimSpace(rest[i+len(" requires "):]), 0)
+				if err != nil {
+					return err
+				}
+				sw.Requires = append(sw.Requires, c)
+				fs = strings.Fields(rest[:i])
+			}
+			state := ""
+			for _, f := range fs[1:] {
+				switch f {
+				case "props", "mode", "except":
+					state = f
+					continue
+				}
+				switch state {
+				case "props":
+					sw.Props = append(sw.Props, f)
+				case "mode":
+					sw.IntMode = f == "int"
+				case "except":
+					sw.Except = append(sw.Except, f)
+				}
+			}
+			cs.Sweeps = append(cs.Sweeps, sw)
+			cur = nil
 		case "spec":
 			sf, err := parseSpecFunc(rest)
 			if err != nil {
